@@ -730,9 +730,19 @@ geoms = [random_geom() for _ in range(n_geoms)]
 for k in range(n_rand):
     geom = geoms[k % n_geoms]
     ops = random_history(geom.N)
-    r = run_history(geom, ops, True, deep=(k % 4 == 0))
-    if k % 5 == 0:
-        run_history(geom, ops, False, deep=False)
+    # (some histories run while the library-wide precision settings are at non-default values: the answers of a cached object
+    #  are still those of an uncached one, values and data types)
+    import arim.settings as _st
+    _keep_st = (_st.FLOAT, _st.COMPLEX)
+    if k % 7 == 3:
+        _st.FLOAT, _st.COMPLEX = np.float32, np.complex64
+        chk.count(precision_settings="FLOAT=float32 COMPLEX=complex64")
+    try:
+        r = run_history(geom, ops, True, deep=(k % 4 == 0) or (k % 7 == 3))
+        if k % 5 == 0:
+            run_history(geom, ops, False, deep=False)
+    finally:
+        _st.FLOAT, _st.COMPLEX = _keep_st
     chk.count(source="random", numinterfaces=geom.N, history_len=min(25, len(ops)) // 5 * 5)
     for e in r.entries:
         chk.count(outcome={0: "None", 1: "array", 2: "IndexError", 3: "ValueError", 4: "unit", 5: "write-refused",
